@@ -190,6 +190,13 @@ def c10 (op : String) (j : Json) : Option (R Json) :=
   | "loaded" => some do
       let f ← tfldOf (← fld j "field")
       pure (Json.mkObj [("ok", tfldJ (loaded f))])
+  | "inv" => some do
+      let f ← tfldOf (← fld j "field")
+      pure (Json.mkObj [("ok", .bool f.invB), ("mesh", .bool f.mesh.invB), ("region", .bool f.mesh.region.invB),
+        ("unit_ok", .bool (decide (f.unit ≠ some "None"))),
+        ("exact", .bool (f.mesh.subs.all (fun p => decide (p.2.pmin.kind = tableKind f.mesh ∧ p.2.pmax.kind = tableKind f.mesh))
+          && decide (f.data.buf.kind ≠ .int)
+          && decide (f.vmap = defaultVmap f.nvdim f.mesh.region.dims f.vdims)))])
   | "fmt" => some do
       let s ← strOfJson (← fld j "suffix")
       pure (Json.mkObj [("write", fmtJ (writeFmt s)), ("read", fmtJ (readFmt s))])
